@@ -5,7 +5,9 @@ use crate::rulegen;
 use crate::util::*;
 use serde_json::{json, Value};
 
-pub const SEEDS: [&str; 14] = ["pa", "ta.pi", "ˈpa.taˌki", "a", "t", "paː", "taːː.pa", "pa5.ta51", "pa1234.pi55.ta3", "pat.ta", "ˌtaˈpat", "i.a", "ma214.a51", "pa1234.ta5.ki21"];
+pub const SEEDS: [&str; 17] = ["pa", "ta.pi", "ˈpa.taˌki", "a", "t", "paː", "taːː.pa", "pa5.ta51", "pa1234.pi55.ta3", "pat.ta", "ˌtaˈpat", "i.a", "ma214.a51", "pa1234.ta5.ki21",
+    // tones typed with zero digits (the reader drops them: 105 is 15, 50 is 5, 007 is 7)
+    "ma105", "ta.ma50.ta", "sa10.ko007"];
 
 pub const RULES: [&str; 70] = [
     // deletion of segments, syllables, boundaries
